@@ -151,13 +151,13 @@ class P:
             if self.at("}"):
                 tail = e
                 break
-            if e[0] in ("if", "match", "block"):
+            if e[0] in ("if", "match", "block", "iflet"):
                 stmts.append(("expr", e))
                 continue
             raise Untranslatable(f"parser: unexpected token {self.peek()[1]!r} after expression")
         self.eat("}")
         # an `if`/`match` statement in last position is the tail expression
-        if tail is None and stmts and stmts[-1][0] == "expr" and stmts[-1][1][0] in ("if", "match"):
+        if tail is None and stmts and stmts[-1][0] == "expr" and stmts[-1][1][0] in ("if", "match", "iflet"):
             tail = stmts.pop()[1]
         return ("block", stmts, tail)
 
@@ -480,7 +480,7 @@ TYPES = {
     "ActionValue": "ActionValue", "impl Into<ActionValue>": "ActionValue", "ActionValueDim": "ActionValueDim",
     "ActionState": "AState", "Accumulation": "Accumulation", "ConditionTimer": "ConditionTimer",
     "&Time<Virtual>": "Tick", "Vec2": "Vec2", "Vec3": "Vec3", "ActionEvents": "ActionEvents",
-    "ConditionKind": "ConditionKind", "DeadZoneKind": "DeadZoneKind",
+    "ConditionKind": "ConditionKind", "&ActionsData": "ActionsOf", "ActionsData": "ActionsOf",
 }
 
 
@@ -499,7 +499,7 @@ def lean_type(t, self_ty):
 
 
 def parse_struct(src, name):
-    m = re.search(r"pub(?:\(\w+\))?\s+struct\s+" + name + r"\s*\{", src)
+    m = re.search(r"pub(?:\(\w+\))?\s+struct\s+" + name + r"\s*(?:<[^>{]*>)?\s*\{", src)
     if not m:
         raise Untranslatable(f"struct {name} not found")
     b = src.index("{", m.end() - 1)
@@ -514,8 +514,8 @@ def parse_struct(src, name):
         n, t = part.split(":", 1)
         n = n.replace("pub(super)", "").replace("pub(crate)", "").replace("pub", "").strip()
         t = " ".join(t.split())
-        if t.startswith("fn("):
-            continue  # function pointer (`ActionData::trigger_events`): not data
+        if t.startswith("fn(") or t.startswith("PhantomData"):
+            continue  # function pointer (`ActionData::trigger_events`) / type marker: not data
         fields.append((n, t))
     return fields
 
@@ -567,6 +567,16 @@ class Ctx:
     def __init__(self, self_ty, self_mode, ret_unit, muts):
         self.self_ty, self.self_mode, self.ret_unit = self_ty, self_mode, ret_unit
         self.muts = set(muts)  # mutable locals that were bound with a pattern binding `mut x` / let mut
+        self.rec = None        # (fn name, Lean name of the fuelled function, indices of the arguments kept) for a self-recursive fn
+
+
+def is_self_call(e, ctx):
+    return ctx.rec is not None and e is not None and e[0] == "mcall" and e[1] == ("path", ["self"]) and e[2] == ctx.rec[0]
+
+
+def self_call(e, ctx):
+    args = [atom(a, ctx) for i, a in enumerate(e[3]) if i in ctx.rec[2]]
+    return f"{ctx.rec[1]} fuel self " + " ".join(args)
 
 
 def path_expr(path, ctx):
@@ -638,10 +648,13 @@ def expr(e, ctx):
         recv, name, args = e[1], e[2], e[3]
         if name in MUTATING:
             raise Untranslatable(f"`&mut self` method `{name}` used in expression position")
+        if is_self_call(e, ctx):
+            raise Untranslatable("self-recursive call outside tail position")
         if name == "into":
             return f"(RInto.into {atom(recv, ctx)})"
         if name in ("clone", "to_owned"):
             return expr(recv, ctx)
+        name = {"abs": "fabs", "max": "fmax", "min": "fmin", "signum": "fsignum"}.get(name, name)
         a = " ".join(atom(x, ctx) for x in args)
         return f"({atom(recv, ctx)}.{name}" + (f" {a})" if a else ")")
     if k == "call":
@@ -652,6 +665,8 @@ def expr(e, ctx):
             pass  # enum constructor application
         a = " ".join(atom(x, ctx) for x in e[2])
         return f"({fn} {a})" if a else f"({fn})"
+    if k == "struct" and len(e[1]) >= 2 and e[1][-2] in ENUMS:
+        return "(" + path_expr(e[1], ctx) + " " + " ".join(atom(v, ctx) for _, v in e[2]) + ")"
     if k == "struct":
         fs = ", ".join(f"{f} := {expr(v, ctx)}" for f, v in e[2])
         ty = ctx.self_ty if e[1] == ["Self"] else e[1][-1]
@@ -660,6 +675,10 @@ def expr(e, ctx):
         if e[3] is None:
             raise Untranslatable("`if` without `else` in expression position")
         return f"(if {expr(e[1], ctx)} then {pure_block(e[2], ctx)} else {pure_block(e[3], ctx)})"
+    if k == "iflet":
+        if e[4] is None:
+            raise Untranslatable("`if let` without `else` in expression position")
+        return f"(match {expr(e[2], ctx)} with | {pat(e[1], ctx)} => {pure_block(e[3], ctx)} | _ => {pure_block(e[4], ctx)})"
     if k == "match":
         arms = " ".join(f"| {pat(p_, ctx)} => {pure_block(b, ctx)}" for p_, b in e[2])
         return f"(match {expr(e[1], ctx)} with {arms})"
@@ -748,8 +767,10 @@ def set_path(root, path, value):
 
 def result(ctx, value):
     if ctx.self_mode == "mut":
-        return "self" if ctx.ret_unit else f"(self, {value})"
-    return "()" if ctx.ret_unit else value
+        r = "self" if ctx.ret_unit else f"(self, {value})"
+    else:
+        r = "()" if ctx.ret_unit else value
+    return f"some {r}" if ctx.rec is not None else r
 
 
 def seq(stmts, tail, k, ctx, ind):
@@ -757,7 +778,8 @@ def seq(stmts, tail, k, ctx, ind):
     Returns Lean text of the function result."""
     pad = "  " * ind
     if not stmts:
-        if tail is not None and tail[0] in ("if", "match", "iflet", "block") and (k or tail_has_effects(tail)):
+        if tail is not None and tail[0] in ("if", "match", "iflet", "block") and \
+                (k or tail_has_effects(tail) or (ctx.rec is not None and any_node(tail, lambda x: is_self_call(x, ctx)))):
             return stmt_expr(tail, [], None, k, ctx, ind, as_tail=True)
         if k:
             # the value of this block is discarded (statement position): continue with the continuation
@@ -769,6 +791,8 @@ def seq(stmts, tail, k, ctx, ind):
             if not ctx.ret_unit:
                 raise Untranslatable("function body ends without a value")
             return result(ctx, "()")
+        if is_self_call(tail, ctx):
+            return self_call(tail, ctx)
         return result(ctx, expr(tail, ctx))
     s, rest = stmts[0], stmts[1:]
     if s[0] == "let":
@@ -779,6 +803,8 @@ def seq(stmts, tail, k, ctx, ind):
     if s[0] == "return":
         if s[1] is None:
             return result(ctx, "()")
+        if is_self_call(s[1], ctx):
+            return self_call(s[1], ctx)
         return result(ctx, expr(s[1], ctx))
     if s[0] == "assign":
         root, path = lvalue(s[1], ctx)
@@ -884,13 +910,44 @@ def pat_muts(p_):
     return set()
 
 
+def any_node(ast, pred):
+    found = [False]
+
+    def walk(x):
+        if isinstance(x, tuple):
+            if x and isinstance(x[0], str) and pred(x):
+                found[0] = True
+            for y in x:
+                walk(y)
+        elif isinstance(x, list):
+            for y in x:
+                walk(y)
+    walk(ast)
+    return found[0]
+
+
+def enum_def(src, name, derive="DecidableEq, Repr"):
+    """a field-less `pub enum`"""
+    m = re.search(r"pub enum " + name + r"\s*\{", src)
+    if not m:
+        raise Untranslatable(f"enum {name} not found")
+    b = src.index("{", m.end() - 1)
+    body = re.sub(r"//[^\n]*|#\[[^\]]*\]", "", src[b + 1:match_brace(src, b)])
+    vs = [p.strip() for p in split_top(body) if p.strip()]
+    if not all(re.fullmatch(r"\w+", v) for v in vs):
+        raise Untranslatable(f"enum {name} has variants with fields")
+    ENUMS.add(name)
+    TYPES[name] = name
+    return f"inductive {name} where\n  | " + " | ".join(vs) + f"\n  deriving {derive}\n", vs
+
+
 def called_names(ast, self_ty=None):
     """names of the helpers an AST calls: methods on `self`, associated functions of the own type, free functions"""
     out = set()
 
     def walk(x):
         if isinstance(x, tuple):
-            if x and x[0] == "mcall" and x[1] == ("path", ["self"]):
+            if x and x[0] == "mcall" and x[1] in (("path", ["self"]), ("path", ["Self"])):
                 out.add(x[2])
             if x and x[0] == "call" and (len(x[1]) == 1 or x[1][0] in ("Self", self_ty)) and x[1][-1][0].islower():
                 out.add(x[1][-1])
@@ -922,12 +979,19 @@ def translate_fn(src, impl_pat, self_ty, fn_name, lean_name=None, drop_params=()
     ret_unit = ret is None
     ctx = Ctx(self_ty, self_mode, ret_unit, [])
     binders = []
+    kept = set()
     if self_mode:
         binders.append(f"(self : {self_ty})")
-    for n, t in params:
+    for i, (n, t) in enumerate(params):
         if n in drop_params or (n.startswith("_") and " ".join(t.split()) in ("&ActionsData", "&Time<Virtual>")):
             continue
+        kept.add(i)
         binders.append(f"({lean_ident(n)} : {lean_type(t, self_ty)})")
+    recursive = self_mode is not None and any_node(ast, lambda x: x[0] == "mcall" and x[1] == ("path", ["self"]) and x[2] == fn_name)
+    if recursive:
+        # self-recursion (the built-in modifiers turn `Bool` into `Axis1D` and call themselves): the Lean function takes fuel and
+        # returns `Option`; the bridge theorem shows that fuel 2 suffices for every input
+        ctx.rec = (fn_name, f"{self_ty}.{lean_name or fn_name}F", kept)
     if ret_unit:
         rty = self_ty if self_mode == "mut" else "Unit"
     else:
@@ -936,6 +1000,13 @@ def translate_fn(src, impl_pat, self_ty, fn_name, lean_name=None, drop_params=()
     text = seq(ast[1], ast[2], [], ctx, 1)
     name = lean_name or fn_name
     full = f"{self_ty}.{name}" if self_ty else name
+    if recursive:
+        tys = [re.match(r"\((\S+) : (.*)\)$", b).groups() for b in binders]
+        sig_t = " → ".join(t for _, t in tys)
+        names = ", ".join(n for n, _ in tys)
+        wild = ", ".join("_" for _ in tys)
+        return (f"def {full}F : Nat → {sig_t} → Option ({rty})\n  | 0, {wild} => none\n  | fuel + 1, {names} =>\n  {text}\n",
+                (self_mode, ret_unit))
     return f"def {full} {' '.join(binders)} : {rty} :=\n  {text}\n", (self_mode, ret_unit)
 
 
